@@ -1175,6 +1175,19 @@ def replay(rep, body):
                 print(f"  {kind}: {what} {sig}")
         elif "parse" in case:
             print("parse:", case["parse"], "->", impl_parse(case["parse"]))
+        elif "session" in case:
+            x = dict(case["session"])
+            x["funs"] = [{"type": _tuplify(f["type"]), "view": f["view"]} for f in x["funs"]]
+            o = PS.impl_session(x)
+            print("session:", x)
+            print("events:", o.get("events"), "registered:", [(d[0], d[1], d[5]) for d in o.get("regs", [])] or o.get("registered"), "error:", o.get("error"))
+            for c in o.get("cds", []):
+                print("  calldata of", PS.sig_string(x["funs"][c["fun"]], c["fun"]))
+                for off, kind, brs in c.get("loads", []):
+                    if kind[0] == "sym":
+                        print(f"    CALLDATALOAD({off}) {kind[1]}: {brs}")
+            for kind, what, sig in PS.check_spec(x, o):
+                print(f"  {kind}: {what} {sig}")
     return 0
 
 
